@@ -56,6 +56,10 @@ class HarnessError(Exception):
     pass
 
 
+class InjectedFault(RuntimeError):
+    """Raised on purpose by a fake service client (fault injection): never a harness error, wherever it surfaces."""
+
+
 def is_harness_exc(e: BaseException) -> bool:
     """True if the exception was raised by the verification machinery itself (innermost frame under /verif/vf):
     such an error must end the check with exit code 2, never as a VIOLATION."""
@@ -67,6 +71,8 @@ def is_harness_exc(e: BaseException) -> bool:
     while tb is not None:
         last = tb
         tb = tb.tb_next
+    if isinstance(e, InjectedFault):
+        return False
     return last is not None and _os.path.abspath(last.tb_frame.f_code.co_filename).startswith(here) and not isinstance(e, AssertionError)
 
 
